@@ -1,6 +1,6 @@
 """C15 - SyncFlag and Mailbox hand over every event exactly once.
 
-A case is a configuration (SyncFlag | Mailbox[Unsigned[3]], tx/rx delay in 0..3, producer and
+A case is a configuration (SyncFlag | Mailbox[Unsigned[3]], tx/rx delay in 0..4, producer and
 consumer in the same or in two contexts, wrapper style, send policy) plus either a drawn schedule of
 (want_send, want_recv, payload) per clock or an exploration order: breadth-first over the joint
 states (simulator snapshot, monitor state) applying every (want_send, want_recv[, payload in a
@@ -27,7 +27,7 @@ TECHNIQUE = (
     "generated producer/consumer wrapper entities simulated on cv.vhdl"
 )
 RULE = (
-    "case = configuration {SyncFlag | Mailbox[Unsigned[3]], tx/rx delay 0..3 (tx_delay/rx_delay or delay=k), same "
+    "case = configuration {SyncFlag | Mailbox[Unsigned[3]], tx/rx delay 0..4 (tx_delay/rx_delay or delay=k), same "
     "context | two contexts, wrapper style plain (one decision per clock) | coro (await idiom of the docstrings), "
     "send policy always (sets also while set; SyncFlag only) | guarded} + schedule of (want_send, want_recv, payload) "
     "<= 80 clocks followed by a drain phase, or exploration order; non-trivial = >= 3 completed hand-overs including "
@@ -42,9 +42,11 @@ ASSUMPTIONS = [
     "Mailbox.send is only issued while the producer sees the mailbox clear (sending into a full mailbox overwrites the "
     "data register and is outside the statement); SyncFlag.set is also issued while set (policy `always`) to check "
     "that it has no effect",
-    "liveness (eventually observed / eventually clear again) is only checked with a drain phase of 8+2*(tx+rx) clocks "
-    "with want_recv=1, want_send=0; an event still pending afterwards is counted as `undrained` (inconclusive), not "
-    "reported as a violation",
+    "liveness: the Mailbox docstring bounds the latency ('tx_delay specifies after how many clock ticks the receiver "
+    "context sees requests set by the sender', 'rx_delay ... the sender context sees acknowledge states'), so after the "
+    "schedule a drain phase of 8+2*(tx+rx) clocks (more than twice the documented delays plus the wrapper's registers) "
+    "with want_recv=1, want_send=0 must deliver a pending event (`undelivered`) and let the producer see the flag clear "
+    "again (`producer_never_clear`); in the explorations liveness is not judged",
     "a SyncFlag/Mailbox with delays used from one context is refused by cohdl (documented assertion): rejected",
     "a wrapper whose VHDL has static errors (owned by C06/C07) is still simulated with Sim(check_static=False) when it "
     "elaborates, and judged by the same monitor; if it does not elaborate the case is blocked_by_static",
@@ -75,10 +77,22 @@ def _cfg(comp, tx, rx, topo, style, send, order="obs_first", form=None, first="p
     return c
 
 
-def all_cfgs(maxd=3):
+def all_cfgs(maxd=4):
     out = []
     for tx in range(maxd + 1):
         for rx in range(maxd + 1):
+            if max(tx, rx) >= 4:
+                # delay 4 on either side (2 and more delay-line stages): a reduced set of program kinds
+                out.append(_cfg("flag", tx, rx, "two", "plain", "always"))
+                out.append(_cfg("flag", tx, rx, "two", "plain", "guarded", "act_first"))
+                out.append(_cfg("mailbox", tx, rx, "two", "plain", "guarded"))
+                out.append(_cfg("flag", tx, rx, "two", "coro", "guarded"))
+                out.append(_cfg("mailbox", tx, rx, "two", "coro", "guarded"))
+                out.append(_cfg("mailbox", tx, rx, "two", "plain", "guarded", uclear=True))
+                out.append(_cfg("flag", tx, rx, "two", "plain", "guarded", xobs=True))
+                if tx == rx:
+                    out.append(_cfg("mailbox", tx, rx, "two", "plain", "guarded", form="delay"))
+                continue
             out.append(_cfg("flag", tx, rx, "two", "plain", "always"))
             out.append(_cfg("flag", tx, rx, "two", "plain", "always", "act_first"))
             out.append(_cfg("flag", tx, rx, "two", "plain", "guarded"))
@@ -126,12 +140,12 @@ def all_cfgs(maxd=3):
 def plan(tier):
     cfgs = all_cfgs()
     nsh = 16 if tier == "quick" else 32
-    per_cfg = 22 if tier == "quick" else 320
+    per_cfg = 20 if tier == "quick" else 300
     shards = []
     for i in range(nsh):
         mine = cfgs[i::nsh]
         shards.append({"kind": "hyp", "name": f"sched{i}", "examples": per_cfg * len(mine), "cfgs": mine})
-    maxd = 1 if tier == "quick" else 3
+    maxd = 1 if tier == "quick" else 4
     ex = all_cfgs(maxd)
     nex = 8 if tier == "quick" else 16
     for i in range(nex):
@@ -205,6 +219,7 @@ class _Driver:
         self.forced_on_clear = 0
         self.xobs = bool(cfg.get("xobs"))
         self.obs_sigs = None
+        self.last_pclear = 1
 
     def state(self):
         return self.mon.state()
@@ -219,6 +234,7 @@ class _Driver:
         g = sim.get
         pclear, set_, cset, clr, pout = g("o_pclear"), g("o_set"), g("o_cset"), g("o_clr"), g("o_payload")
         fclr = g("o_fclr")
+        self.last_pclear = pclear
         if fclr:
             self.forced += 1
             if not (cset if not self.coro else False):
@@ -257,8 +273,14 @@ class _Driver:
 
     def pending(self):
         if self.coro:
-            return self.mon.phase != CoroMonitor.IDLE
+            return self.mon.phase == CoroMonitor.PENDING
         return self.mon.pending is not None
+
+    def producer_clear(self):
+        """nothing pending and the producer has observed the flag as clear again"""
+        if self.coro:
+            return self.mon.phase == CoroMonitor.IDLE
+        return bool(self.last_pclear)
 
 
 def check(case):
@@ -316,8 +338,9 @@ def check(case):
                 break
         if not failed:
             # drain: the consumer stays willing, the producer stops sending
-            for t in range(8 + 2 * (cfg["tx"] + cfg["rx"])):
-                if not drv.pending() and t >= 2:
+            window = 8 + 2 * (cfg["tx"] + cfg["rx"])
+            for t in range(window):
+                if not drv.pending() and drv.producer_clear() and t >= 2:
                     break
                 _w, bad = drv.step(sim, (0, 1, 0))
                 if bad:
@@ -325,8 +348,11 @@ def check(case):
                     failed = True
                     break
             if not failed and drv.pending():
-                out.counters["undrained"] = 1
-                out.labels.append("undrained(inconclusive)")
+                out.add(_sig(cfg, "undelivered"), f"a set/send issued while the producer saw clear is still not received "
+                        f"after {window} drain clocks with a willing consumer (documented latency: tx_delay = {cfg['tx']} ticks)")
+            elif not failed and not drv.producer_clear():
+                out.add(_sig(cfg, "producer_never_clear"), f"the producer does not see the flag clear {window} clocks after "
+                        f"the consumer cleared it (documented latency: rx_delay = {cfg['rx']} ticks)")
     except SimError as e:
         _simerror(out, cfg, key, e)
     m = drv.mon
